@@ -313,6 +313,7 @@ def run(ctx):
             break
 
     if not ctx.quick():
+        io.coqchk(ctx, ctx.pid)
         impl_a, _ = io.drivers(ctx, "asan")
         env_a = io.impl_env("asan", damage=True)
         pv.correspondence(ctx, "io-dmg-asan", dmg_lines, impl_a, model, functional=True, impl_env=env_a, nontrivial=nontriv, timeout=3000)
